@@ -38,10 +38,4 @@ def genFacts : Facts :=
     called by zitadel/schema with a value of exactly that type -/
 def auditedAsserts : List (String × String) := [("oidc.NewEncoder", "value.Interface().(SpaceDelimitedArray)")]
 
-/-- KNOWN FINDING F-C09f: `op.Authorize` declares `var client Client` and assigns it only inside the default validation
-    closure; an authorizer implementing `op.AuthorizeValidator` replaces that closure, `client` stays nil and
-    `RedirectToLogin(req.GetID(), client, w, r)` calls `LoginURL` on the nil interface: every VALID authorization request
-    panics.  Once repaired this list is empty. -/
-def knownClosureAssigned : List (String × String) := [("op.Authorize", "client")]
-
 end C09
